@@ -663,6 +663,11 @@ func (a *Act) loopHead(li *loopInfo, st *State, preds []edgeState) *State {
 	invs, decr := a.loopClauses(li)
 	entryEnv := a.loopEnv(li, st, "entry", nil)
 	for _, cl := range invs {
+		if hasExactTag(cl.Tags, "trusted") {
+			// an assumed loop invariant: no obligations, listed with the assumptions of the evidence
+			u.Trusted["trusted loop invariant of "+fnName(a.fn)+": "+cl.Src] = true
+			continue
+		}
 		t := a.evalClause(entryEnv, cl)
 		a.obligeClause(st, "inv-entry", fmt.Sprintf("L%d", li.ord), cl, b.Instrs[0].Pos(), "loop invariant on entry: "+cl.Src, t)
 	}
@@ -905,6 +910,9 @@ func (a *Act) loopBack(li *loopInfo, st *State, from *ssa.BasicBlock) {
 		pos = li.head.Instrs[0].Pos()
 	}
 	for _, cl := range invs {
+		if hasExactTag(cl.Tags, "trusted") {
+			continue
+		}
 		t := a.evalClause(env, cl)
 		a.obligeClause(st, "inv-step", fmt.Sprintf("L%d", li.ord), cl, pos, "loop invariant preserved: "+cl.Src, t)
 	}
